@@ -20,6 +20,7 @@ class VivoRecorder:
         self._open_exec = []           # stack of [order, pre, emitted]
         self._cache = {}
         self._last_post = None
+        self.liquidations = 0
 
     def snap(self):
         return acct.snapshot_from_store(self.kind, self.ex, self.syms, self.K, self.orders, self.ordinal, cache=self._cache)
@@ -137,6 +138,22 @@ class VivoRecorder:
                     rec.emit({"k": "cancel", "id": rec.ordinal[id(self_)]}, pre, rec.snap())
             return w
         self._wrap(Order, "cancel", mk_cancel)
+
+        def mk_liq(orig):
+            # isolated margin: the simulator creates, registers and executes a liquidation order itself.  Right after that
+            # jesse-internal call the recorder injects what C05 quantifies over: a repeated execute() and a late cancel()
+            # on that (final) order - both must be no-ops - through the wrapped methods, so they are ordinary events
+            def w(*a, **k):
+                n0 = len(rec.orders)
+                r = orig(*a, **k)
+                for o in rec.orders[n0:]:
+                    rec.liquidations += 1
+                    o.execute()
+                    o.cancel()
+                return r
+            return w
+        from jesse.modes import backtest_mode as bm
+        self._wrap(bm, "_check_for_liquidations", mk_liq)
         return self
 
 
@@ -202,13 +219,17 @@ def run_one(arg):
     syms = cargs["syms"]
     fee = cfgargs["fee"]
     if kind == "futures":
-        config = session.futures_config(balance=cfgargs["balance"], fee=fee[0] / fee[1], lev=cfgargs["lev"], mode="cross")
+        config = session.futures_config(balance=cfgargs["balance"], fee=fee[0] / fee[1], lev=cfgargs["lev"],
+                                        mode=cfgargs.get("mode", "cross"))
     else:
         config = session.spot_config(balance=cfgargs["balance"], fee=fee[0] / fee[1])
     candles = {}
     for j, s in enumerate(syms):
-        candles[acct.SYM[s]] = session.lattice_walk(cargs["n"], cargs["seed"] + 17 * j, start=cargs["start"], step=2, wick=2,
-                                                    floor=cargs["floor"])
+        if cargs.get("swing"):
+            candles[acct.SYM[s]] = swing_walk(cargs["n"], cargs["seed"] + 17 * j)
+        else:
+            candles[acct.SYM[s]] = session.lattice_walk(cargs["n"], cargs["seed"] + 17 * j, start=cargs["start"], step=2,
+                                                        wick=2, floor=cargs["floor"])
     rec = VivoRecorder(kind, config["exchange"], syms, fee[1]).install()
     try:
         out = session.run_backtest(policy, config, candles, fast=fast, strategy_cls=make_strategy(policy, rec))
@@ -221,7 +242,48 @@ def run_one(arg):
     exc = out.get("exc")
     init = rec.init
     return {"id": tid, "hdr": hdr, "init": init, "ev": rec.ev, "run_exc": exc or "none", "skipped": 0,
-            "args": [kind, policy, cfgargs, cargs, fast]}
+            "liquidations": rec.liquidations, "args": [kind, policy, cfgargs, cargs, fast]}
+
+
+def swing_walk(n, seed):
+    """integer-lattice candles that swing between 20 and 60 with one-tick steps and small wicks: a position without a
+    stop-loss at leverage 10-20 reaches its liquidation price within a few minutes of an adverse swing"""
+    import random
+    import numpy as np
+    from ..session import T0, MIN
+    rng = random.Random(seed)
+    c = np.zeros((n, 6))
+    p, d = 40, rng.choice([-1, 1])
+    for i in range(n):
+        o = p
+        if p <= 20:
+            d = 1
+        elif p >= 60:
+            d = -1
+        elif rng.random() < 0.04:
+            d = -d
+        cl = p + d * rng.choice([0, 1, 1, 2])
+        h = max(o, cl) + rng.randint(0, 1)
+        lo = min(o, cl) - rng.randint(0, 1)
+        c[i] = [T0 + i * MIN, o, cl, h, lo, rng.randint(1, 100)]
+        p = cl
+    return c
+
+
+def liquidation_specs(n, seed, first_id=1, minutes=(90, 120)):
+    """isolated-margin futures sessions that reach the liquidation price (policy without stop-loss, leverage 10 / 20)"""
+    import random
+    rng = random.Random(seed * 7907 + 5)
+    out = []
+    for i in range(n):
+        policy = dict(seed=rng.randrange(10 ** 6), tick=1.0, qtys=(1, 2), entry_every=rng.choice([5, 7]), allow_short=True,
+                      spot=False, exits_in="go", p_cancel=0.2, p_edit=0.0, p_liquidate=0.0, p_edit_on_reduced=0.0,
+                      no_sl=True, tp_dist=(4, 8), max_entry_rows=1, max_exit_rows=1, entry_offsets=(0, 0, -1, 1))
+        cfgargs = {"balance": rng.choice([400, 1000]), "fee": rng.choice([(0, 1), (1, 64)]), "lev": rng.choice([10, 20]),
+                   "mode": "isolated"}
+        cargs = {"syms": ["A", "B"][:1 + i % 2], "n": rng.choice(list(minutes)), "seed": rng.randrange(10 ** 6), "swing": True}
+        out.append((first_id + i, "futures", policy, cfgargs, cargs, bool(i % 2)))
+    return out
 
 
 def specs(kind, n, seed, first_id=1, minutes=(120, 180), multi=False):
